@@ -146,6 +146,18 @@ func caseC14(c *Ctx) {
 	if base.Err != nil || len(base.Panics) > 0 {
 		c.Skip("fault-free simple run fails: " + errStr(base.Err))
 	}
+	malformed := false
+	if massive && !op.FromRoot && c.Chance(1, 4) {
+		// a second source of failure next to the injected one: some blocks are malformed; the
+		// call must still fail (with any true error) when the reader or writer fails
+		for i := 0; i < 1+c.Draw(2); i++ {
+			malform(c, parts, sp.Unit)
+		}
+		doc = joinParts(parts)
+		malformed = true
+		c.Scenario["doc"] = string(doc)
+		c.st.Count("massive-with-malformed-blocks")
+	}
 	L, W := len(doc), len(base.Segs)
 	var trees []*MNode
 	if op.FromRoot {
@@ -176,7 +188,7 @@ func caseC14(c *Ctx) {
 			if out.Err == nil {
 				fail("C14:reader-error-swallowed:"+mode+":"+op.Kind, "%s: the reader failed after byte %d of %d and the call returned nil", opk, f.k, L)
 			}
-			if !errors.Is(out.Err, out.ReaderErr) {
+			if !errors.Is(out.Err, out.ReaderErr) && !malformed {
 				torn := f.k < L && f.k > 0 && doc[f.k-1] != '\n'
 				cls := "other"
 				if torn {
@@ -195,7 +207,7 @@ func caseC14(c *Ctx) {
 			}
 			fail("C14:"+what+":"+mode+":"+opSig(op), "%s: the writer refused %d bytes at write #%d (%s) and the call returned nil", opk, out.WriterRefused, f.k, f.kind)
 		}
-		if out.Err == nil {
+		if out.Err == nil && !malformed {
 			// nil => every byte of the output was accepted
 			ref := base
 			if cl, why := sameResult(c, op, parts, trees, ref, out, "", ""); cl != "" && (op.Kind == "output" || (op.Kind == "mkdir" && op.DryRun && op.FromRoot)) {
